@@ -123,7 +123,7 @@ def gen(rng, tier, ctx):
         # names imported only under TYPE_CHECKING are resolvable through the diagram: keep every class in it
         subset = rng.sample(names, len(names))
     return {"spec": spec, "subset": subset, "ops": ops, "arg": rng.randrange(1000), "split": split,
-            "postponed": split or rng.random() < 0.6}
+            "postponed": split or rng.random() < 0.6, "repeat": rng.randrange(100) if rng.random() < 0.15 else None}
 
 
 def witnesses():
@@ -131,7 +131,8 @@ def witnesses():
     f = lambda n, k, t=None: {"name": n, "kind": k, "target": t}
     spec = {"module": "dw_subdiagram", "order": ["K0", "K1", "K2"], "profile": "diagram", "classes": [
         cl("K0", None, [f("uid", "int"), f("f0_0", "list_ref", "K2")]), cl("K1", "K0", [f("f1_0", "int")]), cl("K2", None, [f("uid", "int")])]}
-    return {"subdiagram-mutates-original": {"spec": spec, "subset": ["K0", "K1", "K2"], "ops": ["subdiagram"], "arg": 0}}
+    return {"subdiagram-mutates-original": {"spec": spec, "subset": ["K0", "K1", "K2"], "ops": ["subdiagram"], "arg": 0},
+            "class-listed-twice-is-two-nodes": {"spec": spec, "subset": ["K0", "K1", "K2"], "ops": ["subdiagram"], "arg": 0, "repeat": 0}}
 
 
 def independent_analysis(mod, classes):
@@ -201,6 +202,10 @@ def run(case, ctx):
         loaded = [modname]
     try:
         classes = [getattr(mod, n) for n in case["subset"]]
+        if case.get("repeat") is not None and classes:
+            # the same class listed a second time is still one class
+            classes.append(classes[case["repeat"] % len(classes)])
+            C["class_lists_with_a_repeated_class"] += 1
         kinds = {f["kind"] for c in spec["classes"] for f in c["fields"]}
         try:
             cd = ClassDiagram(list(classes))
@@ -212,6 +217,7 @@ def run(case, ctx):
                     "detail": f"{type(e).__name__}: {e}"[:300]}
         C["diagrams_built"] += 1
         problems = []
+        classes = list(dict.fromkeys(classes))         # one node per class, however often it is listed
         inherit, assoc, flags = independent_analysis(mod, classes)
         nodes = sorted(w.clazz.__name__ for w in cd.wrapped_classes)
         if nodes != sorted(c.__name__ for c in classes):
